@@ -33,6 +33,7 @@ PLANS = {
         "scenarios": [
             S("c04_reqatk", 1500, 50000),
             S("c04_repatk", 1200, 40000),
+            S("c04_prewire", 300, 9000),   # replies to request ids that are queued but not yet on the wire
         ],
         "assumptions": ["the adversarial replier is a raw-mode REP socket (it controls the reply id word completely); requesters in part B are raw-mode REQ sockets"],
     },
